@@ -59,6 +59,49 @@ void ob_c16_matmul_batch(const arr3<BA,M,K>& a, const arr3<BB,K,P>& b)
         OBLIGE("C16.matmul.batch_element", (long)v(Bi.value, I.value, J.value) == want, BA*10+BB, M*100+K*10+P, Bi.value*10+I.value, J.value);
     }); }); });
 }
+// ---- operands of DIFFERENT rank: (M,K) x (B,K,P), (B,M,K) x (K,P), (A,B,M,K) x (B,K,P) - the lower-rank operand is aligned to the
+// trailing axes, so each operand's batch position is read at its own offset of the result index
+template <size_t A, size_t B, size_t C, size_t D> using arr4 = na::ndarray_t<std::array<long,A*B*C*D>, cshape<A,B,C,D>>;
+template <size_t B, size_t M, size_t K, size_t P>
+void ob_c16_matmul_mixed_23(const arr2<M,K>& a, const arr3<B,K,P>& b)
+{
+    auto v = nm::unwrap(view::matmul(a, b));
+    auto shp = nm::shape(v);
+    OBLIGE("C16.matmul.mixed_rank_shape", (size_t)nm::len(shp) == 3 && (size_t)nm::at(shp, meta::ct_v<0>) == B && (size_t)nm::at(shp, meta::ct_v<1>) == M && (size_t)nm::at(shp, meta::ct_v<2>) == P, 23, B*1000+M*100+K*10+P);
+    for_<B>([&](auto Bi){ for_<M>([&](auto I){ for_<P>([&](auto J){
+        long want = 0;
+        for_<K>([&](auto T){ const long t = a(I.value, T.value) * b(Bi.value, T.value, J.value); if constexpr (T.value == 0) want = t; else want = want + t; });
+        OBLIGE("C16.matmul.mixed_rank_element", (long)v(Bi.value, I.value, J.value) == want, 23, B*1000+M*100+K*10+P, Bi.value*10+I.value, J.value);
+    }); }); });
+}
+template <size_t B, size_t M, size_t K, size_t P>
+void ob_c16_matmul_mixed_32(const arr3<B,M,K>& a, const arr2<K,P>& b)
+{
+    auto v = nm::unwrap(view::matmul(a, b));
+    auto shp = nm::shape(v);
+    OBLIGE("C16.matmul.mixed_rank_shape", (size_t)nm::len(shp) == 3 && (size_t)nm::at(shp, meta::ct_v<0>) == B && (size_t)nm::at(shp, meta::ct_v<1>) == M && (size_t)nm::at(shp, meta::ct_v<2>) == P, 32, B*1000+M*100+K*10+P);
+    for_<B>([&](auto Bi){ for_<M>([&](auto I){ for_<P>([&](auto J){
+        long want = 0;
+        for_<K>([&](auto T){ const long t = a(Bi.value, I.value, T.value) * b(T.value, J.value); if constexpr (T.value == 0) want = t; else want = want + t; });
+        OBLIGE("C16.matmul.mixed_rank_element", (long)v(Bi.value, I.value, J.value) == want, 32, B*1000+M*100+K*10+P, Bi.value*10+I.value, J.value);
+    }); }); });
+}
+template <size_t A, size_t B, size_t M, size_t K, size_t P>
+void ob_c16_matmul_mixed_43(const arr4<A,B,M,K>& a, const arr3<B,K,P>& b)
+{
+    auto v = nm::unwrap(view::matmul(a, b));
+    auto shp = nm::shape(v);
+    OBLIGE("C16.matmul.mixed_rank_shape", (size_t)nm::len(shp) == 4 && (size_t)nm::at(shp, meta::ct_v<0>) == A && (size_t)nm::at(shp, meta::ct_v<1>) == B && (size_t)nm::at(shp, meta::ct_v<2>) == M && (size_t)nm::at(shp, meta::ct_v<3>) == P, 43, A*10000+B*1000+M*100+K*10+P);
+    for_<A>([&](auto Ai){ for_<B>([&](auto Bi){ for_<M>([&](auto I){ for_<P>([&](auto J){
+        long want = 0;
+        for_<K>([&](auto T){ const long t = a(Ai.value, Bi.value, I.value, T.value) * b(Bi.value, T.value, J.value); if constexpr (T.value == 0) want = t; else want = want + t; });
+        OBLIGE("C16.matmul.mixed_rank_element", (long)v(Ai.value, Bi.value, I.value, J.value) == want, 43, A*10000+B*1000+M*100+K*10+P, Ai.value*100+Bi.value*10+I.value, J.value);
+    }); }); }); });
+}
+template void ob_c16_matmul_mixed_23<2,2,3,2>(const arr2<2,3>&, const arr3<2,3,2>&);
+template void ob_c16_matmul_mixed_23<3,1,2,2>(const arr2<1,2>&, const arr3<3,2,2>&);
+template void ob_c16_matmul_mixed_32<2,2,2,3>(const arr3<2,2,2>&, const arr2<2,3>&);
+template void ob_c16_matmul_mixed_43<2,2,1,2,2>(const arr4<2,2,1,2>&, const arr3<2,2,2>&);
 // ---- vector forms
 template <size_t K>
 void ob_c16_vec(const arr1<K>& a, const arr1<K>& b)
